@@ -379,7 +379,8 @@ class IndentAndNameChecker(BaseChecker):
 
     def check_name_sanity(self, line: str, line_number: int) -> None:
         def is_hex(s: str) -> bool:
-            return re.search(r"^0x[0-9a-fA-F]+$", s) is not None
+            # also 0X1f, and the mantissa/exponent tokens of float literals such as 1e3 or 1e-6 ("1e")
+            return re.search(r"^(0[xX][0-9a-fA-F]+|\d+[eE]\d*)$", s) is not None
 
         line = line[: line.index("#")] + "\n" if "#" in line else line
         line_with_symbols = self.reg_switch.match(line)
